@@ -181,7 +181,7 @@ func main() {
 		}()
 	}
 	rnd := vh.NewRand(o.Seed)
-	nh := o.N(120, 1500)
+	nh := o.N(100, 1500)
 	if s := os.Getenv("STORAGE_HISTORIES"); s != "" {
 		fmt.Sscan(s, &nh)
 	}
@@ -193,7 +193,7 @@ func main() {
 			g.script, g.step = scripts[hr.Intn(len(scripts))], 0
 		}
 		run := NewRun(h)
-		nops := hr.Range(5, o.N(45, 80))
+		nops := hr.Range(5, o.N(40, 80))
 		for j := 0; j < nops; j++ {
 			op := g.Next(run)
 			run.Step(op)
